@@ -212,6 +212,48 @@ def market_keys(order):
 
 
 @st.composite
+def st_prog(draw, order, nbars, mode="loop", max_ops=14):
+    keys = market_keys(order) + ["broker"]
+    prog = []
+    for _ in range(draw(st.integers(1, max_ops))):
+        key = draw(st.sampled_from(keys))
+        bar = draw(st.integers(0, nbars - 1)) if mode == "loop" else 0
+        phase = draw(st.sampled_from(["before", "trigger", "on", "on", "after"]))
+        prog.append([bar, phase] + draw(st_op(key)))
+    # preludes: with probability 1/2 per market, operations that establish a holding early (so later ones meet state)
+    pre = []
+    pb = 0
+    ph = "before"
+    for key in order:
+        if not draw(st.booleans()):
+            continue
+        if key == "uni":
+            pre.append([pb, ph, "uni", "add", draw(st.integers(-8, 0)), draw(st.integers(9, 20)), "0.3", "0.3"])
+        elif key == "aave":
+            pre.append([pb, ph, "aave", "supply", "@funded:0", "0.5", True])
+            pre.append([pb, ph, "aave", "supply", "@funded:1", "0.5", True])
+            if draw(st.booleans()):
+                pre.append([pb, ph, "aave", "borrow", draw(st.sampled_from(["WETH", "USDC", "DAI"])), draw(st.sampled_from(["0.3", "0.9", "1"]))])
+        elif key == "sq":
+            lp = draw(st.booleans())
+            if lp:
+                pre.append([pb, ph, "squni", "buy", "0.2"])
+                pre.append([pb, ph, "squni", "add", draw(st.integers(-6, -1)), draw(st.integers(7, 14)), "0.5", "0.2"])
+            pre.append([pb, ph, "sq", "open", draw(st.sampled_from(["1", "3"])), draw(st.sampled_from(["0.5", "0.9", "0.999"])), lp])
+        elif key == "opt":
+            pre.append([pb, ph, "opt", "deposit", "0.5"])
+            pre.append([pb, draw(st.sampled_from(["before", "on"])), "opt", "buy", draw(st.integers(0, 2)), draw(st.sampled_from(["1", "7"]))])
+        elif key == "glp":
+            pre.append([pb, ph, "glp", "buy_glp", draw(st.sampled_from(["weth", "usdc"])), "0.2"])
+        elif key == "gm":
+            pre.append([pb, ph, "gm", "deposit", "0.2", "0.2"])
+    prog = pre + prog
+    if mode == "loop":
+        prog.sort(key=lambda o: o[0])
+    return prog
+
+
+@st.composite
 def st_universe(draw, mode="loop", kinds=None, max_bars=8, max_ops=14, need=None):
     """mode 'loop': any interval / quote / external prices; mode 'frozen': 1-minute bars, consistent prices, USD-like quote."""
     pool = list(kinds or KINDS)
@@ -271,42 +313,5 @@ def st_universe(draw, mode="loop", kinds=None, max_bars=8, max_ops=14, need=None
     case["wallet"] = {"USDC": draw(st.sampled_from(["0", "5000", "100000", "100000"])), "WETH": draw(st.sampled_from(["0", "2", "50", "50"])), "OSQTH": draw(st.sampled_from(["0", "0", "30"])),
                       "DAI": draw(st.sampled_from(["0", "20000"])), "ETH": draw(st.sampled_from(["0", "20", "20"])), "WAVAX": draw(st.sampled_from(["0", "500"]))}
     nbars = (start + n - 1) // k - start // k + 1
-    keys = market_keys(order) + ["broker"]
-    prog = []
-    for _ in range(draw(st.integers(1, max_ops))):
-        key = draw(st.sampled_from(keys))
-        bar = draw(st.integers(0, nbars - 1)) if mode == "loop" else 0
-        phase = draw(st.sampled_from(["before", "trigger", "on", "on", "after"]))
-        prog.append([bar, phase] + draw(st_op(key)))
-    # preludes: with probability 1/2 per market, operations that establish a holding early (so later ones meet state)
-    pre = []
-    pb = 0
-    ph = "before"
-    for key in order:
-        if not draw(st.booleans()):
-            continue
-        if key == "uni":
-            pre.append([pb, ph, "uni", "add", draw(st.integers(-8, 0)), draw(st.integers(9, 20)), "0.3", "0.3"])
-        elif key == "aave":
-            pre.append([pb, ph, "aave", "supply", "@funded:0", "0.5", True])
-            pre.append([pb, ph, "aave", "supply", "@funded:1", "0.5", True])
-            if draw(st.booleans()):
-                pre.append([pb, ph, "aave", "borrow", draw(st.sampled_from(["WETH", "USDC", "DAI"])), draw(st.sampled_from(["0.3", "0.9", "1"]))])
-        elif key == "sq":
-            lp = draw(st.booleans())
-            if lp:
-                pre.append([pb, ph, "squni", "buy", "0.2"])
-                pre.append([pb, ph, "squni", "add", draw(st.integers(-6, -1)), draw(st.integers(7, 14)), "0.5", "0.2"])
-            pre.append([pb, ph, "sq", "open", draw(st.sampled_from(["1", "3"])), draw(st.sampled_from(["0.5", "0.9", "0.999"])), lp])
-        elif key == "opt":
-            pre.append([pb, ph, "opt", "deposit", "0.5"])
-            pre.append([pb, draw(st.sampled_from(["before", "on"])), "opt", "buy", draw(st.integers(0, 2)), draw(st.sampled_from(["1", "7"]))])
-        elif key == "glp":
-            pre.append([pb, ph, "glp", "buy_glp", draw(st.sampled_from(["weth", "usdc"])), "0.2"])
-        elif key == "gm":
-            pre.append([pb, ph, "gm", "deposit", "0.2", "0.2"])
-    prog = pre + prog
-    if mode == "loop":
-        prog.sort(key=lambda o: o[0])
-    case["prog"] = prog
+    case["prog"] = draw(st_prog(order, nbars, mode, max_ops))
     return case
